@@ -6,7 +6,7 @@
    free of self-crossings, and the singleton laws S|~S = Whole etc. for general S (they rest on
    the geometric recombination premise of C01). *)
 From Coq Require Import List Permutation Lia.
-From SV Require Import Spec.Spec Lemmas.Construct.
+From SV Require Import Spec.Spec Lemmas.Construct Lemmas.NoZero Lemmas.NoZeroCex.
 Open Scope Q_scope.
 
 Theorem C06_or_wellformed : forall a b a' b' s, op_or a b = Ok (a', b', s) ->
@@ -27,6 +27,41 @@ Theorem C06_not_wellformed : forall s s', op_not s = Ok s' -> good (jordans s) -
 Proof. exact op_not_good. Qed.
 Print Assumptions C06_or_wellformed.
 Print Assumptions C06_xor_wellformed.
+
+(* NO ZERO-LENGTH PIECE.  Splitting never creates one (all requests), the re-split operands of
+   every operator and every complement have none, and the RESULT has none provided the pieces
+   of the re-split operands are longer than the 1e-9 of Point2D.__eq__ (ssep): the path
+   following re-points the end of every piece to the start of the next one whenever the two
+   are equal within 1e-9 (follow_path_repointed), so a piece shorter than that can collapse. *)
+Theorem C06_split_no_zero_piece : forall j idx nodes j',
+  all_lines j = true -> Jordan.split j idx nodes = Ok j' -> nondeg j -> nondeg j'.
+Proof. exact split_nondeg. Qed.
+Theorem C06_or_operands_no_zero_piece : forall a b a' b' s, op_or a b = Ok (a', b', s) ->
+  shape_lines a = true -> shape_lines b = true -> snondeg a -> snondeg b ->
+  (shape_lines a' = true /\ snondeg a') /\ (shape_lines b' = true /\ snondeg b').
+Proof. exact op_or_operands_nondeg. Qed.
+Theorem C06_or_result_no_zero_piece : forall a b a' b' s, op_or a b = Ok (a', b', s) ->
+  shape_lines a = true -> shape_lines b = true -> snondeg a -> snondeg b ->
+  ssep a' -> ssep b' -> shape_lines s = true /\ snondeg s.
+Proof. exact op_or_result_nondeg. Qed.
+Theorem C06_and_result_no_zero_piece : forall a b a' b' s, op_and a b = Ok (a', b', s) ->
+  shape_lines a = true -> shape_lines b = true -> snondeg a -> snondeg b ->
+  ssep a' -> ssep b' -> shape_lines s = true /\ snondeg s.
+Proof. exact op_and_result_nondeg. Qed.
+Theorem C06_not_no_zero_piece : forall s s', op_not s = Ok s' ->
+  shape_lines s = true -> snondeg s -> shape_lines s' = true /\ snondeg s'.
+Proof. exact op_not_nondeg. Qed.
+(* the separation hypothesis cannot be dropped: with an edge of length 5e-10 in an operand that
+   shares a vertex with the other one, A | B contains the segment [(0,2);(0,2)] -- found by the
+   proof attempt, replayed on the library (same result object); the input is in the class of
+   the known finding F16 (shared vertex) with a feature below the library's tolerances *)
+Theorem C06_no_zero_piece_refuted_below_tolerance :
+  exists a b a' b' s, op_or a b = Ok (a', b', s) /\
+    shape_lines a = true /\ shape_lines b = true /\ snondeg a /\ snondeg b /\ ~ snondeg s.
+Proof. exact nondeg_not_preserved_unconditionally. Qed.
+Print Assumptions C06_split_no_zero_piece.
+Print Assumptions C06_or_result_no_zero_piece.
+Print Assumptions C06_no_zero_piece_refuted_below_tolerance.
 
 (* kind table of the complement: ~Simple is Simple, ~Connected is Disjoint of simples, ... *)
 Theorem C06_not_kind : forall s s', shape_wf s -> op_not s = Ok s' ->
